@@ -23,7 +23,7 @@ RULE_TEXT = ('runs = seeded random suite hierarchies (depth <= 3, <= 3 sub-suite
              'file); a fixed sweep assigns every verdict to a case of a one-suite and of a two-level hierarchy. Each '
              'plan runs with both reporters. Non-trivial = >= 2 cases or a structural fault; distinct = (hierarchy '
              'shape, listing styles, multiset of endings, structural fault).')
-REACH_PROBES = ['section_reopened', 'suites_by_glob_of_directories', 'suites_by_glob_of_files', 'ending_processor_fails', 'verdict_PASS', 'verdict_FAIL', 'verdict_XFAIL', 'verdict_XPASS', 'verdict_SKIPPED',
+REACH_PROBES = ['case_listed_twice_in_one_suite', 'case_listed_twice_ends_differently', 'section_reopened', 'suites_by_glob_of_directories', 'suites_by_glob_of_files', 'ending_processor_fails', 'verdict_PASS', 'verdict_FAIL', 'verdict_XFAIL', 'verdict_XPASS', 'verdict_SKIPPED',
                 'verdict_VALIDATION_ERROR', 'verdict_HARD_ERROR', 'verdict_INTERNAL_ERROR', 'verdict_SYNTAX_ERROR',
                 'verdict_FILE_ACCESS_ERROR', 'ending_act_syntax', 'ending_unreadable', 'ending_timeout', 'all_ok',
                 'some_unsuccessful', 'sub_suite', 'depth_3', 'glob_listing', 'directory_reference', 'invalid_twice',
@@ -55,6 +55,8 @@ ENDINGS = {
     'PROCESSOR_FAILS': (PASS_BODY, 'INTERNAL_ERROR', False),
 }
 ENDING_NAMES = sorted(ENDINGS)
+# only for a case that is listed twice: its action ends differently the second time it is run (FAIL, then PASS)
+ENDINGS['FLAKY'] = ('[setup]\n% mark-{id}\n[act]\n% flaky-{id}\n[assert]\nexit-code == 0\n', 'FAIL', True)
 STRUCT_FAULTS = ['twice', 'twice_other_spelling', 'cycle', 'self', 'missing_suite', 'missing_case', 'syntax_root',
                  'syntax_sub']
 
@@ -148,6 +150,24 @@ def gen_hierarchy(g, force_subs=False):
     for s in h.values():
         if s['style'] in ('explicit', 'mixed'):
             g.shuffle(s['cases'])
+    # a case file that one suite lists twice (by name twice, or by name and again by a glob): whether it is then
+    # processed once or once per listing is not stated and not judged - but whatever is processed is reported
+    # consistently by both reporters and counts for the final verdict
+    if g.random() < 0.2:
+        cands = []
+        for key in sorted(h):
+            s_ = h[key]
+            for k, c in enumerate(s_['cases']):
+                cands.append((key, k, 'explicit_twice' if case_file(s_, c, k).endswith('.tc') else 'explicit_and_glob'))
+        if cands:
+            key, k, how = g.choice(cands)
+            h[key]['dup'] = {'k': k, 'how': how}
+            if g.random() < 0.6:
+                h[key]['cases'][k]['ending'] = 'FLAKY'
+            for s_ in h.values():
+                for c in s_['cases']:
+                    if c['ending'] == 'PROCESSOR_FAILS':
+                        c['ending'] = 'PASS'  # (its model counts sandbox creations, which a double listing makes ambiguous)
     return h
 
 
@@ -183,6 +203,17 @@ def listing(s):
             order.append((c, f))
         else:
             globbed.append((c, f))
+    dup = s.get('dup')
+    if dup and dup['how'] == 'explicit_twice' and dup['k'] < len(s['cases']):
+        c = s['cases'][dup['k']]
+        f = case_file(s, c, dup['k'])
+        lines.append(f)
+        order.append((c, f))
+    if dup and dup['how'] == 'explicit_and_glob' and dup['k'] < len(s['cases']):
+        c = s['cases'][dup['k']]
+        f = case_file(s, c, dup['k'])
+        lines.insert(0, f)
+        order.insert(0, (c, f))
     if globbed:
         lines.append('*.case')
         order.extend(sorted(globbed, key=lambda cf: cf[1]))
@@ -315,16 +346,31 @@ def build_world(plan, w):
     return fsfaults
 
 
-def expected_cases(plan):
-    """[(suite key, case id, file rel. root dir, identifier, marker?)] in the model's order"""
+def has_double_listing(plan):
+    return any(s.get('dup') and s['dup']['k'] < len(s['cases']) for s in plan['hierarchy'].values())
+
+
+def expected_cases(plan, variant='per_listing'):
+    """[(suite key, case id, file rel. root dir, identifier, marker?)] in the model's order.
+    variant (only matters for a case listed twice in one suite): processed once per listing / only where it is listed
+    first / only where it is listed last"""
     h = plan['hierarchy']
     out = []
     seen_pf = False
     for key in model_order(h):
         s = h[key]
         _, order = listing(s)
+        files = [f for _, f in order]
+        if variant == 'first_listing':
+            order = [cf for i, cf in enumerate(order) if cf[1] not in files[:i]]
+        elif variant == 'last_listing':
+            order = [cf for i, cf in enumerate(order) if cf[1] not in files[i + 1:]]
+        seen_files = []
         for c, f in order:
             text, ident, marker = ENDINGS[c['ending']]
+            if c['ending'] == 'FLAKY' and f in seen_files:
+                ident = 'PASS'
+            seen_files.append(f)
             if c['ending'] == 'PROCESSOR_FAILS':
                 if seen_pf:
                     ident, marker = 'PASS', True  # only one sandbox creation per run is made to fail
@@ -343,6 +389,10 @@ def execute(plan, scratch):
               for s in plan['hierarchy'].values() for c in s['cases'] if c['ending'] == 'INTERNAL_ERROR']
     procs = {'atc': {'exit': 0}, 'failing': {'exit': 3, 'stderr': 'boom\n'}, 'stall': {'duration': 'inf'},
              'nostart': {'spawn_error': 'ENOENT'}}
+    for s_ in plan['hierarchy'].values():
+        for c in s_['cases']:
+            if c['ending'] == 'FLAKY':
+                procs['flaky-' + c['id']] = {'exit_by_invocation': [1, 0]}
     runs = {}
     digests = []
     sim_seconds = 0.0
@@ -417,6 +467,10 @@ def _probes(plan, hist):
             pr['glob_listing'] = 1
         if any(s['ref'] == 'dir' for s in h.values()):
             pr['directory_reference'] = 1
+        if has_double_listing(plan):
+            pr['case_listed_twice_in_one_suite'] = 1
+            if any(c['ending'] == 'FLAKY' for c in ex):
+                pr['case_listed_twice_ends_differently'] = 1
         for s in h.values():
             if s.get('reopen') and len(s['cases']) >= 2:
                 pr['section_reopened'] = 1
@@ -478,7 +532,24 @@ def oracle(plan, hist):
     def bad(rule, expected_, observed, **kw):
         V.append(dict(kw, rule='C16.' + rule, expected=expected_, observed=observed))
 
-    ex = expected_cases(plan)
+    fault = plan['struct_fault']
+    if has_double_listing(plan) and not fault:
+        first = None
+        for variant in ('per_listing', 'first_listing', 'last_listing'):
+            V = _judge(plan, hist, expected_cases(plan, variant))
+            if not V:
+                return V
+            first = first if first is not None else V
+        return first
+    return _judge(plan, hist, expected_cases(plan))
+
+
+def _judge(plan, hist, ex):
+    V = []
+
+    def bad(rule, expected_, observed, **kw):
+        V.append(dict(kw, rule='C16.' + rule, expected=expected_, observed=observed))
+
     fault = plan['struct_fault']
     for rep in ('progress', 'junit'):
         r = hist['runs'][rep]
@@ -553,20 +624,28 @@ def oracle(plan, hist):
         bad('junit.same_cases', sorted(c['file'] for c in ex), names)
         return V
     by_file = {os.path.normpath(c['file']): c for c in ex}
+    doc_order_ = [os.path.normpath(tc.get('name')) for tc in tcs]
+    by_elem = {}
+    if doc_order_ == [os.path.normpath(c['file']) for c in ex]:
+        by_elem = {id(tc): c for tc, c in zip(tcs, ex)}  # (a file listed twice has one record per processing)
+
+    def model_of(tc):
+        return by_elem.get(id(tc)) or by_file[os.path.normpath(tc.get('name'))]
+
     for s in suites:
         cases = s.findall('testcase')
         n = len(cases)
         if s.get('tests') != str(n):
             bad('junit.tests_attribute', n, s.get('tests'), suite=s.get('name'))
-        model_bad = [tc.get('name') for tc in cases if by_file[os.path.normpath(tc.get('name'))]['ident'] not in SUCCESS]
+        model_bad = [tc for tc in cases if model_of(tc)['ident'] not in SUCCESS]
         f_e = int(s.get('failures', '0')) + int(s.get('errors', '0'))
         if f_e != len(model_bad):
             bad('junit.failures_plus_errors', {'count': len(model_bad), 'unsuccessful': [
-                (x, by_file[os.path.normpath(x)]['ident'], by_file[os.path.normpath(x)]['ending']) for x in model_bad]},
+                (x.get('name'), model_of(x)['ident'], model_of(x)['ending']) for x in model_bad]},
                 {'failures': s.get('failures'), 'errors': s.get('errors')}, suite=s.get('name'),
-                endings=sorted({by_file[os.path.normpath(x)]['ending'] for x in model_bad}))
+                endings=sorted({model_of(x)['ending'] for x in model_bad}))
         for tc in cases:
-            c = by_file[os.path.normpath(tc.get('name'))]
+            c = model_of(tc)
             has = tc.find('failure') is not None or tc.find('error') is not None
             if has != (c['ident'] not in SUCCESS):
                 bad('junit.unsuccessful_case_carries_failure_or_error',
